@@ -58,10 +58,12 @@ def gen_case(rng, tier):
     endpoint = channel.startswith("endpoint")
     kinds = ("node", "str", "int", "iri", "iri2") if (endpoint or channel == "turtle_iter") else ("node", "str", "int", "lang", "date", "iri", "iri2", "cdt")
     n_nodes = rng.choice([3, 4, 6, 8, 10]) if tier == "quick" else rng.choice([3, 4, 6, 8, 10, 16, 24])
+    clash = channel == "turtle" and rng.random() < 0.5    # the document binds the caller's usual labels to other vocabularies
     # tie-prone graphs: few distinct structures, so that equally frequent constraints abound
     triples = gen.gen_graph(rng, n_nodes=n_nodes, n_classes=rng.randint(1, 3), n_props=rng.randint(2, 5), kinds=kinds,
                             bnodes=(endpoint and rng.random() < 0.3),   # answers with bnode bindings (labels are the endpoint's own)
-                            prop_namespaces=rng.choice([(gen.EX,), (gen.EX, gen.OTHER, "http://vocab.org/t#")]),
+                            prop_namespaces=((gen.EX, "http://vocab.org/t#", "http://terms.org/u/") if clash else
+                                             rng.choice([(gen.EX,), (gen.EX, gen.OTHER)])),
                             density=rng.choice([0.5, 0.7, 0.9]), twins=0 if endpoint else 0.06)
     tp = gen.CUSTOM_TYPE if rng.random() < 0.12 else gen.RDF_TYPE
     triples = gen.retype(gen.ensure_class(triples), tp)
@@ -114,8 +116,8 @@ def gen_case(rng, tier):
         all_taken = True
     case = {"channel": channel, "graph": gen.L(triples), "target": target, "options": options, "ns": ns,
             "exempt_random_prefix": all_taken}
-    if channel == "turtle" and rng.random() < 0.4:
-        case["clash_labels"] = True      # the document binds 'ex', 'xsd', ... to other namespaces than the caller's dict
+    if clash:
+        case["clash_labels"] = True
     if endpoint and rng.random() < 0.25:
         case["repeat_rows"] = True       # an endpoint may repeat rows (a triple in two named graphs); still deterministic
     return case
